@@ -386,6 +386,61 @@ Proof.
   by rewrite Hp.
 Qed.
 
+(** a root that is no node of [s]: [KeyError] *)
+Lemma reduce_roots_fail (umap : gmap positive Z) (st0 : st) : ∀ l,
+  (∃ v, v ∈ l ∧ umap !! absn v = None) →
+  mapM (fun v => p <- of_opt EKey (umap !! absn v) ;; ret (flip p v)) l st0
+  = (Err EKey, st0).
+Proof.
+  induction l as [|x l IH]; intros (v&Hv&Hn); [by apply elem_of_nil in Hv|].
+  cbn [mapM]. destruct (umap !! absn x) as [p|] eqn:Hx; [|done].
+  apply elem_of_cons in Hv as [->|Hv]; [congruence|].
+  rewrite (bind_ok _ _ st0 (flip p x) st0) by done.
+  by rewrite (bind_err _ _ _ _ _ (IH (ex_intro _ v (conj Hv Hn)))).
+Qed.
+
+(** the node loops of the body cannot fail; what remains is the translation
+    of the roots *)
+Lemma reduction_body_nodes vorder order :
+  NoDup vorder → (list_to_set vorder : gset nat) = dom (vars s) →
+  NoDup order → (list_to_set order : gset positive) = dom (succ s) →
+  ∃ umap b, RInv 0 b umap ∧
+    reduction_body vorder order s =
+    (rs <- mapM (fun v => p <- of_opt EKey (umap !! absn v) ;; ret (flip p v)) (roots s) ;;
+     ret (b <| roots := remove_dups (merge_sort Z.le rs) |>)) s.
+Proof.
+  intros NDv Hdv NDo Hdo.
+  assert (Hcov : ∀ u, u ∈ dom (succ s) → u ∈ order).
+  { intros u Hu. rewrite <- Hdo in Hu. by apply elem_of_list_to_set in Hu. }
+  destruct (reduce_levels_spec order Hcov (nvars s) (fresh_like s) _ (le_n _) RInv_start)
+    as (umap&b&E&HR).
+  exists umap, b. split; [done|].
+  unfold reduction_body. cbn [bind get].
+  rewrite bool_decide_eq_true_2 by done. cbn [negb].
+  rewrite (new_like_ok vorder s HI NDv Hdv). cbn [bind ret]. cbv zeta.
+  match goal with |- context [reduce_nodes ?a ?l ?c] => set (X := reduce_nodes a l c) end.
+  assert (EX : X = Ok (umap, b)) by exact E. rewrite EX. cbn [bind ret]. reflexivity.
+Qed.
+
+Lemma RInv_dom j b umap : RInv j b umap → j = 0 → dom umap = dom (succ s).
+Proof.
+  intros HR ->. apply stdpp.sets.set_eq. intros u. rewrite !elem_of_dom. split.
+  - intros [x Hx]. by destruct (ri_sound _ _ _ HR _ _ Hx) as (?&_).
+  - intros [t Ht]. apply (ri_complete _ _ _ HR u t Ht). lia.
+Qed.
+
+Lemma reduction_body_bad_root vorder order :
+  NoDup vorder → (list_to_set vorder : gset nat) = dom (vars s) →
+  NoDup order → (list_to_set order : gset positive) = dom (succ s) →
+  (∃ v, v ∈ roots s ∧ succ s !! absn v = None) →
+  reduction_body vorder order s = (Err EKey, s).
+Proof.
+  intros NDv Hdv NDo Hdo (v&Hv&Hn).
+  destruct (reduction_body_nodes vorder order NDv Hdv NDo Hdo) as (umap&b&HR&->).
+  apply bind_err. apply reduce_roots_fail. exists v. split; [done|].
+  apply not_elem_of_dom. rewrite (RInv_dom 0 b umap HR eq_refl). by apply not_elem_of_dom.
+Qed.
+
 Lemma reduction_body_ok vorder order :
   Forall (valid s) (roots s) →
   NoDup vorder → (list_to_set vorder : gset nat) = dom (vars s) →
@@ -393,19 +448,11 @@ Lemma reduction_body_ok vorder order :
   ∃ b umap, reduction_body vorder order s = (Ok b, s) ∧ Reduced s b umap.
 Proof.
   intros Hroots NDv Hdv NDo Hdo.
-  assert (Hcov : ∀ u, u ∈ dom (succ s) → u ∈ order).
-  { intros u Hu. rewrite <- Hdo in Hu. by apply elem_of_list_to_set in Hu. }
-  destruct (reduce_levels_spec order Hcov (nvars s) (fresh_like s) _ (le_n _) RInv_start)
-    as (umap&b&E&HR).
+  destruct (reduction_body_nodes vorder order NDv Hdv NDo Hdo) as (umap&b&HR&->).
   set (R := remove_dups (merge_sort Z.le
               ((fun v => flip (default 0%Z (umap !! absn v)) v) <$> roots s))).
   exists (b <| roots := R |>), umap. split.
-  - unfold reduction_body. cbn [bind get].
-    rewrite bool_decide_eq_true_2 by done. cbn [negb].
-    rewrite (new_like_ok vorder s HI NDv Hdv). cbn [bind ret]. cbv zeta.
-    match goal with |- context [reduce_nodes ?a ?l ?c] => set (X := reduce_nodes a l c) end.
-    assert (EX : X = Ok (umap, b)) by exact E. rewrite EX. cbn [bind ret].
-    rewrite (bind_ok _ _ _ _ _ (reduce_roots b umap s HR (roots s) Hroots)). done.
+  - by rewrite (bind_ok _ _ _ _ _ (reduce_roots b umap s HR (roots s) Hroots)).
   - pose proof (ri_inv _ _ _ HR) as HIb.
     assert (HDb : ∀ x a, D (b <| roots := R |>) x a = D b x a)
       by (intros; by apply D_same).
@@ -419,16 +466,15 @@ Proof.
     + apply HR.
     + apply HR.
     + apply HR.
-    + apply stdpp.sets.set_eq. intros u. rewrite !elem_of_dom. split.
-      * intros [x Hx]. by destruct (ri_sound _ _ _ HR _ _ Hx) as (?&_).
-      * intros [t Ht]. apply (ri_complete _ _ _ HR u t Ht). lia.
+    + by apply (RInv_dom 0 b).
     + intros n x Hx. destruct (ri_sound _ _ _ HR _ _ Hx) as (_&Hv&Hp&_&HD).
       split_and!; [done|done| |by apply Hdenv]. intros a. by rewrite HDb.
     + exists ((fun v => flip (default 0%Z (umap !! absn v)) v) <$> roots s).
       split; [done|]. apply Forall2_fmap_r, Forall_Forall2_diag.
       rewrite Forall_forall in Hroots |- *. intros v Hv.
       destruct (ref_umap 0 b umap v HR (Hroots v Hv)) as (p&Hp&Hvp&_&HDp); [lia|].
-      cbv beta. rewrite Hp. cbn [default]. split_and!; [done|by exists p| |by apply Hdenv].
+      unfold Basics.compose. cbv beta. rewrite Hp. cbn [default].
+      split_and!; [exact Hvp|by exists p| |by apply Hdenv].
       intros a. by rewrite HDb.
 Qed.
 
@@ -487,6 +533,20 @@ Qed.
 
 (** an enumeration that is not a permutation is refused by the model; the old
     manager is untouched *)
+Lemma reduction_body_oracle vorder order s :
+  ¬ (NoDup order ∧ (list_to_set order : gset positive) = dom (succ s)) ∨
+  ¬ (NoDup vorder ∧ (list_to_set vorder : gset nat) = dom (vars s)) →
+  reduction_body vorder order s = (Err EOracle, s).
+Proof.
+  intros Hbad. unfold reduction_body. cbn [bind get].
+  destruct (decide (NoDup order ∧ (list_to_set order : gset positive) = dom (succ s)))
+    as [Ho|Ho].
+  - rewrite bool_decide_eq_true_2 by done. cbn [negb].
+    destruct Hbad as [?|Hv]; [done|].
+    by rewrite (new_like_oracle vorder s Hv).
+  - by rewrite bool_decide_eq_false_2.
+Qed.
+
 Theorem reduction_oracle vorder order s :
   ¬ (NoDup order ∧ (list_to_set order : gset positive) = dom (succ s)) ∨
   ¬ (NoDup vorder ∧ (list_to_set vorder : gset nat) = dom (vars s)) →
@@ -497,15 +557,27 @@ Proof.
   apply try_to_reorder_inert in Hrun as (r1&s1&Hbody&Hcase).
   assert (E : reduction_body vorder order (s <| rctx := true |>)
               = (Err EOracle, s <| rctx := true |>)).
-  { unfold reduction_body. cbn [bind get].
-    destruct (decide (NoDup order ∧ (list_to_set order : gset positive) = dom (succ s)))
-      as [Ho|Ho].
-    - change (Base.succ (s <| rctx := true |>)) with (succ s).
-      rewrite bool_decide_eq_true_2 by done. cbn [negb].
-      destruct Hbad as [?|Hv]; [done|].
-      by rewrite (new_like_oracle vorder (s <| rctx := true |>) Hv).
-    - change (Base.succ (s <| rctx := true |>)) with (succ s).
-      by rewrite bool_decide_eq_false_2. }
+  { apply reduction_body_oracle. exact Hbad. }
+  rewrite E in Hbody. injection Hbody as <- <-.
+  destruct Hcase as [[? _]|[-> ->]]; [done|]. by rewrite set_rctx_id.
+Qed.
+
+(** the hypothesis on the roots is needed: a root that is no node of the old
+    manager is a [KeyError] (the old manager is untouched) *)
+Theorem reduction_bad_root vorder order s :
+  Inv s →
+  NoDup vorder → (list_to_set vorder : gset nat) = dom (vars s) →
+  NoDup order → (list_to_set order : gset positive) = dom (succ s) →
+  (∃ v, v ∈ roots s ∧ succ s !! absn v = None) →
+  reduction vorder order s = (Err EKey, s).
+Proof.
+  intros HI NDv Hdv NDo Hdo Hbad.
+  destruct (reduction vorder order s) as [r s'] eqn:Hrun.
+  rewrite reduction_unfold in Hrun.
+  apply try_to_reorder_inert in Hrun as (r1&s1&Hbody&Hcase).
+  assert (E : reduction_body vorder order (s <| rctx := true |>)
+              = (Err EKey, s <| rctx := true |>)).
+  { apply reduction_body_bad_root; try done. by apply Inv_rctx. }
   rewrite E in Hbody. injection Hbody as <- <-.
   destruct Hcase as [[? _]|[-> ->]]; [done|]. by rewrite set_rctx_id.
 Qed.
